@@ -683,6 +683,25 @@ def cases(rng, tier):
             out.append(case_dec_frame(fb, 'frame-dec-mutated'))
         else:
             out.append(case_dec(fb, 'dec-mutated'))
+    return spread_heavy(out)
+
+
+def spread_heavy(cs, limit=150):
+    """The in-kernel shards are consecutive slices of the case list; a slice made only of 255-octet-MAC cases
+    (about 1000 numerals each) costs coqc gigabytes.  Deterministically interleave the heavy cases with the
+    light ones so that every shard gets the same small share of them."""
+    heavy = [c for c in cs if c.coq.count(';') + len(c.expected) > limit]
+    light = [c for c in cs if c.coq.count(';') + len(c.expected) <= limit]
+    if not heavy or not light:
+        return cs
+    step = max(1, len(light) // len(heavy))
+    out, hi = [], 0
+    for i, c in enumerate(light):
+        if i % step == 0 and hi < len(heavy):
+            out.append(heavy[hi])
+            hi += 1
+        out.append(c)
+    out.extend(heavy[hi:])
     return out
 
 
